@@ -546,6 +546,12 @@ func (g *gen) rawExpr(k kind, depth int, class string) string {
 				return h + "(" + g.expr(kStr, depth-1, "go-helper-arg") + ")"
 			}
 			g.feat("method_call")
+			if g.pct("dual", 40) {
+				// one struct type reached both by value (dv) and through a pointer (dp); it has value-receiver
+				// and pointer-receiver methods, so the method sets (and method indexes) of T and *T differ
+				g.feat("method_call_value_and_pointer_receivers")
+				return []string{"dv.Balance()", "dp.Balance()", "dp.Title()", "dv.Title()", "dv.Archive()", "dp.Archive()", "dp.Zed()", "dv.Zed()"}[g.intn("dualm", 0, 7)]
+			}
 			return "obj.Greet(" + g.expr(kStr, depth-1, "method-arg") + ")"
 		case 5:
 			g.feat("helper_opts")
@@ -748,7 +754,10 @@ func (g *gen) callUser(f variable, depth int) string {
 
 // ----------------------------------------------------------------- statements
 
-var textBits = []string{"hello", " ", "\n", "<p>", "</p>", "&amp;", "a < b", "\"q\"", "it's", "é", "\n\n", "x", "\t", " 100 ", "<br/>", "\r\n", "=", "{", "}", "# not a comment", "%", "$", "\f", "😀", "日本", "<", "<<", "< %", "\n\n\n"}
+var textBits = []string{"hello", " ", "\n", "<p>", "</p>", "&amp;", "a < b", "\"q\"", "it's", "é", "\n\n", "x", "\t", " 100 ", "<br/>", "\r\n", "=", "{", "}", "# not a comment", "%", "$", "\f", "😀", "日本", "<", "<<", "< %", "\n\n\n",
+	// backslashes: plush's text mode treats a backslash before '<' specially (escaped tags); a tag-free text is not
+	// necessarily rendered byte for byte
+	"\\", "\\\\", "\\<", "\\\\<b>", "a\\b\\", "\\ <", "C:\\\\<dir>\\file", "\\\\\\<"}
 
 func (g *gen) text() {
 	n := g.size("ntext", 0, 4)
@@ -758,8 +767,10 @@ func (g *gen) text() {
 	}
 	s := sb.String()
 	s = strings.ReplaceAll(s, "<%", "< %")
-	if strings.HasSuffix(s, "<") {
-		s += " " // the next text run could begin with '%'
+	// (a template that ENDS in `\<` makes the lexer's readHTML slice past the input and panic on the pinned tree:
+	// totality of parsing is C03's subject — observed, not generated; the padding below also avoids it)
+	if strings.HasSuffix(s, "<") || strings.HasSuffix(s, "\\") {
+		s += " " // the next text run could begin with '%'; a backslash right before a tag would escape the tag
 	}
 	if strings.HasPrefix(s, "%") {
 		s = " " + s // ... and the previous one end with '<'
@@ -1242,6 +1253,26 @@ func (g *gen) blockHelperPiece(depth int) {
 		g.tag("<%", "}", "%>")
 		return
 	}
+	if g.pct("blockcond", 15) {
+		// the block helper call, block included, is the CONDITION of an if (or the operand of !)
+		g.feat("block_helper_as_condition")
+		s := g.newSite(pkBlock, "block-helper-call-as-condition", kAny)
+		neg := ""
+		if g.pct("blockcondneg", 40) {
+			neg = "!"
+		}
+		g.tag("<%=", fmt.Sprintf("if (%spb(%d) {", neg, s.ID), "%>")
+		g.nl()
+		sc := g.pushScope()
+		g.body("block-helper-block", depth-1, 2)
+		g.popScope(sc)
+		g.tag("<%", "}) {", "%>")
+		g.cur.write("yes")
+		g.tag("<%", "} else {", "%>")
+		g.cur.write("no")
+		g.tag("<%", "}", "%>")
+		return
+	}
 	s := g.newSite(pkBlock, "block-helper-call", kAny)
 	g.tag(g.outTag(), fmt.Sprintf("pb(%d) {", s.ID), "%>")
 	g.nl()
@@ -1295,6 +1326,27 @@ func (g *gen) contentPiece(depth int) {
 			g.body("contentOf-default-block", depth-1, 1)
 			g.popScope(sc)
 			g.tag("<%", "}", "%>")
+		} else if g.pct("coframe", 35) {
+			// the contentOf call sits in a frame that tolerates an UNKNOWN IDENTIFIER (condition, operand of
+			// ! && || !=): a failure inside the stored block is not an unknown identifier of that frame
+			g.feat("content_of_in_tolerant_frame")
+			call := `contentOf("` + name + `", {"label": ` + g.expr(kStr, 1, "hash-value") + "})"
+			switch g.intn("coframekind", 0, 4) {
+			case 0:
+				g.tag("<%=", "!"+call, "%>")
+			case 1:
+				g.tag("<%=", "if ("+call+") {", "%>")
+				g.cur.write("Y")
+				g.tag("<%", "} else {", "%>")
+				g.cur.write("N")
+				g.tag("<%", "}", "%>")
+			case 2:
+				g.tag("<%=", call+" && b1", "%>")
+			case 3:
+				g.tag("<%=", "b0 || "+call, "%>")
+			default:
+				g.tag("<%=", call+" != nil", "%>")
+			}
 		} else {
 			g.tag("<%=", `contentOf("`+name+`", {"label": `+g.expr(kStr, 1, "hash-value")+"})", "%>")
 		}
